@@ -26,4 +26,4 @@ require (
 	golang.org/x/text v0.4.0 // indirect
 )
 
-replace github.com/kubeshark/base => /tmp/cleanrepo
+replace github.com/kubeshark/base => /repo
